@@ -421,17 +421,18 @@ theorem targetQuota_eq (b : Int) : targetQuota b = max (b * 100) 2000 := by
   split <;> omega
 
 /-- quota = budget × period floored by the minimum, except for the two documented rules:
-    bypass (|Δ| below 1 % of capacity × period and target above the minimum) and the 10 % step. -/
+    bypass (|Δ| below 1 % of capacity × period, target above the minimum, and a quota is currently set)
+    and the 10 % step (only when a quota is currently set). -/
 theorem quota_eq (f : FloatOps) (hf : FloatOK f) (b cur cap : Int) (hc : 0 ≤ coresOf cap) :
     adjustQuota f b cur cap =
-      if (targetQuota b - cur < coresOf cap * 1000 ∧ cur - targetQuota b < coresOf cap * 1000) ∧ targetQuota b ≠ 2000
+      if (targetQuota b - cur < coresOf cap * 1000 ∧ cur - targetQuota b < coresOf cap * 1000) ∧ targetQuota b ≠ 2000 ∧ cur ≠ -1
       then .bypass
       else if targetQuota b - cur > coresOf cap * 10000 ∧ cur ≠ -1 then .write (cur + coresOf cap * 10000)
       else .write (targetQuota b) := by
   have key : ∀ (T X : Int) (bl sg : Bool) (P Q : Prop) [Decidable P] [Decidable Q], (bl = true ↔ P) → (sg = true ↔ Q) →
-      (if (bl && T != 2000) = true then QOutcome.bypass
+      (if (bl && T != 2000 && cur != -1) = true then QOutcome.bypass
         else if (sg && cur != -1) = true then QOutcome.write X else QOutcome.write T) =
-      (if P ∧ T ≠ 2000 then QOutcome.bypass else if Q ∧ cur ≠ -1 then QOutcome.write X else QOutcome.write T) := by
+      (if P ∧ T ≠ 2000 ∧ cur ≠ -1 then QOutcome.bypass else if Q ∧ cur ≠ -1 then QOutcome.write X else QOutcome.write T) := by
     intro T X bl sg P Q _ _ hb hs
     cases bl <;> cases sg <;> simp at hb hs <;> simp [hb, hs]
   unfold adjustQuota
@@ -440,14 +441,336 @@ theorem quota_eq (f : FloatOps) (hf : FloatOK f) (b cur cap : Int) (hc : 0 ≤ c
 
 /-- neither rule applies ⇒ exactly the statement's value is written. -/
 theorem quota_plain (f : FloatOps) (hf : FloatOK f) (b cur cap : Int) (hc : 0 ≤ coresOf cap)
-    (hfar : coresOf cap * 1000 ≤ targetQuota b - cur ∨ coresOf cap * 1000 ≤ cur - targetQuota b ∨ targetQuota b = 2000)
+    (hfar : coresOf cap * 1000 ≤ targetQuota b - cur ∨ coresOf cap * 1000 ≤ cur - targetQuota b ∨ targetQuota b = 2000 ∨ cur = -1)
     (hstep : targetQuota b - cur ≤ coresOf cap * 10000 ∨ cur = -1) :
     adjustQuota f b cur cap = .write (max (b * 100) 2000) := by
   rw [quota_eq f hf b cur cap hc, ← targetQuota_eq]
-  have h1 : ¬ ((targetQuota b - cur < coresOf cap * 1000 ∧ cur - targetQuota b < coresOf cap * 1000) ∧ targetQuota b ≠ 2000) := by
+  have h1 : ¬ ((targetQuota b - cur < coresOf cap * 1000 ∧ cur - targetQuota b < coresOf cap * 1000) ∧ targetQuota b ≠ 2000 ∧ cur ≠ -1) := by
     omega
   have h2 : ¬ (targetQuota b - cur > coresOf cap * 10000 ∧ cur ≠ -1) := by omega
   simp [h1, h2]
+
+/-! ### 9. pod lifecycle: every pod still in the list counts -/
+
+/-- overwrite the lifecycle state of a pod (deletionTimestamp / phase), nothing else. -/
+def setLife (g : PodC → Int) (p : PodC) : PodC := { p with life := g p }
+
+theorem poolOf_life (g : PodC → Int) (pods : List PodC) (c : Int) : poolOf (pods.map (setLife g)) c = poolOf pods c := by
+  unfold poolOf
+  rw [List.foldl_map]
+  rfl
+
+theorem lseClaimed_life (g : PodC → Int) (pods : List PodC) (c : Int) :
+    lseClaimed (pods.map (setLife g)) c = lseClaimed pods c := by
+  unfold lseClaimed
+  rw [List.any_map]
+  rfl
+
+theorem calcBESet_life (g : PodC → Int) (procs : List Proc) (pods : List PodC) (res sys : List Int) :
+    calcBESet procs (pods.map (setLife g)) res sys = calcBESet procs pods res sys := by
+  unfold calcBESet
+  simp only [lseClaimed_life]
+
+theorem pools_life (g : PodC → Int) (procs : List Proc) (pods : List PodC) (res sys : List Int) :
+    lsrPool (pods.map (setLife g)) res sys procs = lsrPool pods res sys procs ∧
+    lsPool (pods.map (setLife g)) res sys procs = lsPool pods res sys procs := by
+  simp [lsrPool, lsPool, poolOf_life]
+
+/-- the BE cpuset of both paths does not depend on any pod's lifecycle state: a pod in graceful
+    termination, Pending, Succeeded or Failed that is still in the pod list protects its CPUs
+    exactly like a running one. -/
+theorem life_irrelevant (f : FloatOps) (kp : Int) (topoNil : Bool) (b : Int) (oldN : Nat) (procs : List Proc)
+    (pods : List PodC) (res sys : List Int) (g : PodC → Int) :
+    adjustFull f kp topoNil b oldN procs (pods.map (setLife g)) res sys = adjustFull f kp topoNil b oldN procs pods res sys ∧
+    adjustCPUSet f b oldN procs (pods.map (setLife g)) res sys = adjustCPUSet f b oldN procs pods res sys ∧
+    calcBESet procs (pods.map (setLife g)) res sys = calcBESet procs pods res sys := by
+  obtain ⟨h1, h2⟩ := pools_life g procs pods res sys
+  have h3 := calcBESet_life g procs pods res sys
+  have h4 : adjustCPUSet f b oldN procs (pods.map (setLife g)) res sys = adjustCPUSet f b oldN procs pods res sys := by
+    unfold adjustCPUSet
+    simp only [h1, h2]
+  refine ⟨?_, h4, h3⟩
+  unfold adjustFull
+  simp only [h1, h2, h3, h4]
+
+/-! ### 10. the recover path (calcBECPUSet) and its agreement with the suppress path -/
+
+/-- a CPU's pool class is the class of some valid pod naming it (or none). -/
+theorem poolOf_claimed (pods : List PodC) (c : Int) (h : poolOf pods c ≠ qNone) :
+    ∃ p ∈ pods, p.valid = true ∧ p.qos = poolOf pods c ∧ c ∈ p.cpus := by
+  unfold poolOf at h ⊢
+  have key : ∀ (l : List PodC) (acc : Int),
+      l.foldl (fun acc p => if p.valid && p.cpus.contains c then p.qos else acc) acc = acc ∨
+      ∃ p ∈ l, p.valid = true ∧
+        p.qos = l.foldl (fun acc p => if p.valid && p.cpus.contains c then p.qos else acc) acc ∧ c ∈ p.cpus := by
+    intro l
+    induction l with
+    | nil => intro acc; left; rfl
+    | cons p ps ih =>
+      intro acc
+      simp only [List.foldl_cons]
+      by_cases hm : (p.valid && p.cpus.contains c) = true
+      · simp only [hm, if_true]
+        rcases ih p.qos with h' | ⟨p', hp', hv, hq, hc⟩
+        · right
+          simp only [Bool.and_eq_true, List.contains_iff_mem] at hm
+          exact ⟨p, by simp, hm.1, h'.symm, hm.2⟩
+        · right; exact ⟨p', List.mem_cons_of_mem _ hp', hv, hq, hc⟩
+      · simp only [hm]
+        rcases ih acc with h' | ⟨p', hp', hv, hq, hc⟩
+        · left; simpa using h'
+        · right; exact ⟨p', List.mem_cons_of_mem _ hp', hv, by simpa using hq, hc⟩
+  rcases key pods qNone with h' | h'
+  · exact absurd h' h
+  · exact h'
+
+theorem lseClaimed_iff (pods : List PodC) (c : Int) :
+    lseClaimed pods c = true ↔ ∃ p ∈ pods, p.valid = true ∧ p.qos = qLSE ∧ c ∈ p.cpus := by
+  unfold lseClaimed
+  simp only [List.any_eq_true, Bool.and_eq_true, beq_iff_eq, List.contains_iff_mem]
+  constructor
+  · rintro ⟨p, hp, ⟨hv, hq⟩, hc⟩; exact ⟨p, hp, hv, hq, hc⟩
+  · rintro ⟨p, hp, hv, hq, hc⟩; exact ⟨p, hp, ⟨hv, hq⟩, hc⟩
+
+/-- the suppress path's LSE pool is contained in what the recover path protects. -/
+theorem poolOf_lse_claimed (pods : List PodC) (c : Int) (h : poolOf pods c = qLSE) : lseClaimed pods c = true := by
+  have hne : poolOf pods c ≠ qNone := by rw [h]; decide
+  obtain ⟨p, hp, hv, hq, hc⟩ := poolOf_claimed pods c hne
+  exact (lseClaimed_iff pods c).mpr ⟨p, hp, hv, hq.trans h, hc⟩
+
+/-- no CPU is named both by a valid LSE pod and by a valid pod of another class. -/
+def Unamb (pods : List PodC) : Prop :=
+  ∀ c, lseClaimed pods c = true → ∀ q ∈ pods, q.valid = true → c ∈ q.cpus → q.qos = qLSE
+
+theorem mem_calcBESet {procs : List Proc} {pods : List PodC} {res sys : List Int} {c : Int} :
+    c ∈ calcBESet procs pods res sys ↔ c ∈ cpusOf procs ∧ c ∉ res ∧ c ∉ sys ∧ lseClaimed pods c = false := by
+  unfold calcBESet
+  simp only [List.mem_filter, Bool.not_eq_true', Bool.or_eq_false_iff, List.contains_eq_mem, decide_eq_false_iff_not]
+  constructor
+  · rintro ⟨h1, ⟨h2, h3⟩, h4⟩; exact ⟨h1, h3, h2, h4⟩
+  · rintro ⟨h1, h2, h3, h4⟩; exact ⟨h1, ⟨h3, h2⟩, h4⟩
+
+/-- the recover path's BE cpuset: existing CPUs, none reserved / system-exclusive, none named by ANY
+    valid LSE pod of the list (whatever its lifecycle state), and nothing else is left out. -/
+theorem recover_sound (procs : List Proc) (pods : List PodC) (res sys : List Int) (hnd : (cpusOf procs).Nodup) :
+    (calcBESet procs pods res sys).Nodup ∧
+    ∀ c, c ∈ calcBESet procs pods res sys ↔
+      (c ∈ cpusOf procs ∧ c ∉ res ∧ c ∉ sys ∧ ∀ p ∈ pods, p.valid = true → p.qos = qLSE → c ∉ p.cpus) := by
+  refine ⟨List.Nodup.sublist List.filter_sublist hnd, fun c => ?_⟩
+  rw [mem_calcBESet]
+  have : lseClaimed pods c = false ↔ ∀ p ∈ pods, p.valid = true → p.qos = qLSE → c ∉ p.cpus := by
+    rw [← Bool.not_eq_true, lseClaimed_iff]
+    constructor
+    · intro h p hp hv hq hc; exact h ⟨p, hp, hv, hq, hc⟩
+    · rintro h ⟨p, hp, hv, hq, hc⟩; exact h p hp hv hq hc
+  rw [this]
+
+theorem mem_pools_iff {pods : List PodC} {res sys : List Int} {procs : List Proc} {c : Int} :
+    (c ∈ cpusOf (lsrPool pods res sys procs) ∨ c ∈ cpusOf (lsPool pods res sys procs)) ↔
+      (c ∈ cpusOf procs ∧ c ∉ res ∧ c ∉ sys ∧ poolOf pods c ≠ qLSE) := by
+  constructor
+  · rintro (h | h)
+    · obtain ⟨m1, m2, m3, m4⟩ := mem_lsrPool h
+      exact ⟨m1, m2, m3, by rw [m4]; decide⟩
+    · obtain ⟨m1, m2, m3, _, m5⟩ := mem_lsPool h
+      exact ⟨m1, m2, m3, m5⟩
+  · rintro ⟨h1, h2, h3, h4⟩
+    obtain ⟨p, hp, rfl⟩ := List.mem_map.mp h1
+    by_cases hq : poolOf pods p.cpu = qLSR
+    · left
+      refine List.mem_map.mpr ⟨p, List.mem_filter.mpr ⟨hp, ?_⟩, rfl⟩
+      simp [eligible, h2, h3, hq]
+    · right
+      refine List.mem_map.mpr ⟨p, List.mem_filter.mpr ⟨hp, ?_⟩, rfl⟩
+      simp [eligible, h2, h3, hq, h4]
+
+/-- the recover path never offers a CPU the suppress path considers ineligible … -/
+theorem recover_subset_eligible (procs : List Proc) (pods : List PodC) (res sys : List Int) (c : Int)
+    (h : c ∈ calcBESet procs pods res sys) :
+    c ∈ cpusOf (lsrPool pods res sys procs) ∨ c ∈ cpusOf (lsPool pods res sys procs) := by
+  obtain ⟨h1, h2, h3, h4⟩ := mem_calcBESet.mp h
+  refine mem_pools_iff.mpr ⟨h1, h2, h3, fun hq => ?_⟩
+  rw [poolOf_lse_claimed pods c hq] at h4
+  cases h4
+
+/-- … and when no CPU is named by an LSE pod and a pod of another class, the two paths agree exactly
+    on which CPUs best-effort pods may get. -/
+theorem paths_agree (procs : List Proc) (pods : List PodC) (res sys : List Int) (hun : Unamb pods) (c : Int) :
+    c ∈ calcBESet procs pods res sys ↔
+      (c ∈ cpusOf (lsrPool pods res sys procs) ∨ c ∈ cpusOf (lsPool pods res sys procs)) := by
+  refine ⟨recover_subset_eligible procs pods res sys c, fun h => ?_⟩
+  obtain ⟨h1, h2, h3, h4⟩ := mem_pools_iff.mp h
+  refine mem_calcBESet.mpr ⟨h1, h2, h3, ?_⟩
+  cases hcl : lseClaimed pods c
+  · rfl
+  · exfalso
+    apply h4
+    exact exclusively_lse pods c ((lseClaimed_iff pods c).mp hcl) (hun c hcl)
+
+/-- whatever adjustByCPUSet writes lies inside calcBECPUSet's set (unambiguous ownership). -/
+theorem written_subset_recover (f : FloatOps) (hf : FloatOK f) (b : Int) (oldN : Nat) (procs : List Proc) (pods : List PodC)
+    (res sys cs : List Int) (hnd : (cpusOf procs).Nodup) (hun : Unamb pods)
+    (hw : adjustCPUSet f b oldN procs pods res sys = .write cs) : ∀ c ∈ cs, c ∈ calcBESet procs pods res sys := by
+  intro c hc
+  obtain ⟨m1, m2, m3, m4⟩ := (written_sound f hf b oldN procs pods res sys cs hnd hw).2.1 c hc
+  exact (paths_agree procs pods res sys hun c).mpr (mem_pools_iff.mpr ⟨m1, m2, m3, m4⟩)
+
+/-! ### 11. topology object missing, kubelet CPU-manager policy -/
+
+theorem adjustFull_no_panic (f : FloatOps) (kp : Int) (topoNil : Bool) (b : Int) (oldN : Nat) (procs : List Proc)
+    (pods : List PodC) (res sys : List Int) : adjustFull f kp topoNil b oldN procs pods res sys ≠ none := by
+  have hp := total_no_panic f b oldN procs pods res sys
+  unfold adjustFull
+  split
+  · simp
+  · split
+    · simp
+    · split
+      · contradiction
+      · split <;> simp
+      · (repeat' split) <;> simp
+
+/-- policy none (or no policy annotation): every level receives exactly what `adjustCPUSet` selects,
+    so all theorems of 5.–7. speak about the files. -/
+theorem adjustFull_none (f : FloatOps) (b : Int) (oldN : Nat) (procs : List Proc) (pods : List PodC) (res sys : List Int) :
+    adjustFull f kpNone false b oldN procs pods res sys =
+      match adjustCPUSet f b oldN procs pods res sys with
+      | .panic => none
+      | .untouched => some .nothing
+      | .write cs => some ⟨some cs, some cs, some cs⟩ := by
+  unfold adjustFull
+  simp only [Bool.false_eq_true, if_false]
+  split
+  · rename_i h0
+    rw [none_eligible_untouched f b oldN procs pods res sys h0]
+  · generalize adjustCPUSet f b oldN procs pods res sys = o
+    cases o <;> first | rfl | simp [kpNone, kpStatic, kpBad]
+
+/-- no topology object, or an unreadable kubelet-policy annotation: nothing is written. -/
+theorem cannot_act_untouched (f : FloatOps) (kp : Int) (topoNil : Bool) (b : Int) (oldN : Nat) (procs : List Proc)
+    (pods : List PodC) (res sys : List Int) (h : topoNil = true ∨ kp = kpBad) :
+    adjustFull f kp topoNil b oldN procs pods res sys = some .nothing := by
+  have hp := total_no_panic f b oldN procs pods res sys
+  unfold adjustFull
+  split
+  · rfl
+  · rename_i ht
+    have hk : kp = kpBad := by
+      rcases h with h | h
+      · exact absurd h ht
+      · exact h
+    subst hk
+    split
+    · rfl
+    · split
+      · contradiction
+      · simp [kpBad, kpStatic]
+      · simp
+
+/-- static policy: the container level receives the selection of `adjustCPUSet` (so it is distinct,
+    existing, unprotected and within the budget by `written_sound`), the BE root and pod level
+    receive the recover set, and — with unambiguous ownership — the container set lies inside it. -/
+theorem static_levels (f : FloatOps) (hf : FloatOK f) (b : Int) (oldN : Nat) (procs : List Proc) (pods : List PodC)
+    (res sys : List Int) (w : Written) (hnd : (cpusOf procs).Nodup)
+    (hw : adjustFull f kpStatic false b oldN procs pods res sys = some w) :
+    (∀ cs, w.cont = some cs → adjustCPUSet f b oldN procs pods res sys = .write cs ∧
+        w.root = some (calcBESet procs pods res sys) ∧ w.pod = some (calcBESet procs pods res sys) ∧
+        (Unamb pods → ∀ c ∈ cs, c ∈ calcBESet procs pods res sys)) ∧
+    (∀ r, w.root = some r → r = calcBESet procs pods res sys) := by
+  unfold adjustFull at hw
+  simp only [Bool.false_eq_true, if_false] at hw
+  split at hw
+  · cases hw
+    exact ⟨fun cs h => (by cases h), fun r h => (by cases h)⟩
+  · split at hw
+    · cases hw
+    · simp only [if_true] at hw
+      cases hw
+      exact ⟨fun cs h => (by cases h), fun r h => (by cases h; rfl)⟩
+    · rename_i cs' hcs
+      have : ¬ (kpStatic = kpBad) := by decide
+      simp only [this, if_false, if_true] at hw
+      cases hw
+      refine ⟨fun cs h => ?_, fun r h => (by cases h; rfl)⟩
+      cases h
+      exact ⟨hcs, rfl, rfl, fun hun => written_subset_recover f hf b oldN procs pods res sys cs' hnd hun hcs⟩
+
+/-! ### 12. host applications -/
+
+/-- helpers.NonBEHostAppFilter: a host application is left out of the non-BE sum only if its QoS is BE
+    AND it has a cgroup path whose base is the kubepods best-effort dir (base code 1); a nil path
+    (code 0) or any other base counts as non-BE. -/
+theorem app_counted_iff (a : AppU) : a.counted = false ↔ (a.qos = qBE ∧ a.base = 1) := by
+  unfold AppU.counted
+  simp only [Bool.or_eq_false_iff, bne_eq_false_iff_eq, beq_eq_false_iff_ne]
+  constructor
+  · rintro ⟨⟨h1, _⟩, h3⟩; exact ⟨h1, h3⟩
+  · rintro ⟨h1, h3⟩; exact ⟨⟨h1, by rw [h3]; decide⟩, h3⟩
+
+/-- list form: raising the usage of one host application that counts as non-BE never raises the budget. -/
+theorem budget_antitone_app (f : FloatOps) (hf : FloatOK f) (cap alloc anno thr : Int) (minPct : Option Int)
+    (node : Int) (pods : List PodU) (as₁ as₂ : List AppU) (a : AppU) (d : Int) (hd : 0 ≤ d)
+    (ha : a.counted = true) :
+    budget f cap alloc anno thr minPct node pods (as₁ ++ { a with used := a.used + d } :: as₂) ≤
+      budget f cap alloc anno thr minPct node pods (as₁ ++ a :: as₂) := by
+  have hR : 0 ≤ nodeReserved cap alloc anno := by
+    unfold nodeReserved; simp only []; split <;> split <;> omega
+  have hc : ({ a with used := a.used + d } : AppU).counted = true := by
+    simpa [AppU.counted] using ha
+  have e1 : appsAll (as₁ ++ { a with used := a.used + d } :: as₂) = appsAll (as₁ ++ a :: as₂) + d := by
+    simp only [appsAll, List.map_append, List.map_cons]; exact sum_bump _ _ _ _
+  have e2 : appsCounted (as₁ ++ { a with used := a.used + d } :: as₂) = appsCounted (as₁ ++ a :: as₂) + d := by
+    simp only [appsCounted, List.filter_append, List.filter_cons, hc, ha, if_true, List.map_append, List.map_cons]
+    exact sum_bump _ _ _ _
+  unfold budget
+  rw [e1, e2]
+  have := budget_antitone f hf cap thr minPct (nodeReserved cap alloc anno) node (podsAll pods)
+    (podsCounted pods) (appsAll (as₁ ++ a :: as₂)) (appsCounted (as₁ ++ a :: as₂)) 0 d 0 hR (Int.le_refl 0) hd (Int.le_refl 0)
+  simpa using this
+
+/-- a BE host application inside the kubepods best-effort dir is BE consumption: its growth (seen by
+    the node metric too) leaves the budget where it is or lowers it only through the system term. -/
+theorem budget_be_app_not_subtracted (a : AppU) (h : a.qos = qBE ∧ a.base = 1) (as₁ as₂ : List AppU) :
+    appsCounted (as₁ ++ a :: as₂) = appsCounted (as₁ ++ as₂) := by
+  have hc : a.counted = false := (app_counted_iff a).mpr h
+  simp [appsCounted, List.filter_append, hc]
+
+/-! ### 13. quota mode when BE is currently unlimited -/
+
+theorem targetQuota_ge (b : Int) : 2000 ≤ targetQuota b := by
+  rw [targetQuota_eq]; omega
+
+/-- the shape of the bypass test BEFORE repair 4d853b2 (`fix: property=C10`): the sentinel −1 of an
+    unlimited BE group was compared as if it were a quota.  Kept as a regression witness. -/
+def adjustQuotaPreFix (f : FloatOps) (budgetMilli cur capMilli : Int) : QOutcome :=
+  let q := targetQuota budgetMilli
+  let cores := coresOf capMilli
+  if f.bypassLt q cur cores && q != beMinQuota then .bypass else
+  if f.stepGt q cur cores && cur != beUnsetQuota then .write (cur + f.stepInc cores) else .write q
+
+/-- "in quota mode the quota equals the budget times the CFS period, floored by the minimum" did NOT
+    hold before the repair: 3 CPUs, BE unlimited, budget 22 m (target 2200) — nothing was written and
+    BE stayed unlimited (window 2000 < target < capacity × 1000 − 1). -/
+theorem quota_unlimited_bypass_counterexample :
+    ¬ (∀ b cap : Int, adjustQuotaPreFix exactOps b (-1) cap = .write (max (b * 100) 2000)) := by
+  intro h
+  have := h 22 3000
+  revert this
+  decide
+
+/-- a currently unlimited BE group (quota −1) always gets exactly the statement's quota, at once:
+    neither the 1 % bypass nor the 10 % step applies. -/
+theorem quota_from_unset_written (f : FloatOps) (hf : FloatOK f) (b cap : Int) (hc : 0 ≤ coresOf cap) :
+    adjustQuota f b (-1) cap = .write (max (b * 100) 2000) :=
+  quota_plain f hf b (-1) cap hc (Or.inr (Or.inr (Or.inr rfl))) (Or.inr rfl)
+
+/-- after any round the BE group is limited: the result is never "leave −1 in place". -/
+theorem quota_never_stays_unlimited (f : FloatOps) (hf : FloatOK f) (b cur cap : Int) (hc : 0 ≤ coresOf cap)
+    (h : adjustQuota f b cur cap = .bypass) : cur ≠ -1 := by
+  intro he
+  subst he
+  rw [quota_from_unset_written f hf b cap hc] at h
+  cases h
 
 /-! ### non-vacuity -/
 
@@ -465,5 +788,26 @@ example : adjustCPUSet exactOps 3000 4 demoProcs [{ valid := true, qos := qLSR, 
 example : adjustCPUSet exactOps 3000 2 [⟨0, 0, 0, 0⟩, ⟨1, 0, 0, 0⟩] [] [0, 1] [] = .untouched := by decide
 example : adjustQuota exactOps 20000 1000000 80000 = .write 1800000 := by decide
 example : budgetAgg exactOps 8000 65 (some 10) 500 3000 1000 1000 0 0 = 2200 := by decide
+
+/-- the LSE pod on cpu 7 is in graceful termination (life 2): still protected, on both paths, under both kubelet policies. -/
+def demoPods : List PodC := [{ valid := true, qos := qLSR, cpus := [0, 6] }, { valid := true, qos := qLSE, cpus := [7], life := 2 }]
+example : calcBESet demoProcs demoPods [] [] = [0, 1, 2, 3, 4, 5, 6] := by decide
+example : adjustFull exactOps kpStatic false 3000 4 demoProcs demoPods [] [] =
+    some ⟨some [0, 1, 2, 3, 4, 5, 6], some [0, 1, 2, 3, 4, 5, 6], some [2, 3, 4]⟩ := by decide
+example : adjustFull exactOps kpNone false 3000 4 demoProcs demoPods [] [] = some ⟨some [2, 3, 4], some [2, 3, 4], some [2, 3, 4]⟩ := by
+  decide
+example : adjustFull exactOps kpBad false 3000 4 demoProcs demoPods [] [] = some .nothing := by decide
+example : Unamb demoPods := by
+  intro c h q hq hv hc
+  simp [demoPods, lseClaimed, qLSE, qLSR] at h hq
+  rcases hq with rfl | rfl
+  · simp at hc; omega
+  · rfl
+/-- ownership that is NOT unambiguous (cpu 7 named by an LSE and, later in the list, an LSR pod): the suppress path may hand out
+    cpu 7 although the recover path protects it — the reason for hypothesis `Unamb`. -/
+example : 7 ∈ cpusOf (lsrPool [{ valid := true, qos := qLSE, cpus := [7] }, { valid := true, qos := qLSR, cpus := [7] }] [] [] demoProcs) ∧
+    7 ∉ calcBESet demoProcs [{ valid := true, qos := qLSE, cpus := [7] }, { valid := true, qos := qLSR, cpus := [7] }] [] [] := by decide
+example : adjustQuotaPreFix exactOps 22 (-1) 3000 = .bypass ∧ adjustQuota exactOps 22 (-1) 3000 = .write 2200 := by decide
+example : (⟨qBE, 0, 100⟩ : AppU).counted = true ∧ (⟨qBE, 1, 100⟩ : AppU).counted = false ∧ (⟨qLS, 1, 100⟩ : AppU).counted = true := by decide
 
 end KoordVerif.C10
